@@ -17,8 +17,9 @@ import pair as P
 class AgentModel(asyncio.Protocol):
     """Minimal ssh-agent: REQUEST_IDENTITIES (11) and SIGN_REQUEST (13)"""
 
-    def __init__(self, keys):
+    def __init__(self, keys, refuse=()):
         self.keys = keys
+        self.refuse = set(refuse)      # public blobs of keys the agent lists but will not sign with (removed, locked, denied)
         self.buf = b''
         self.t = None
         self.signs = 0
@@ -54,7 +55,7 @@ class AgentModel(asyncio.Protocol):
             flags = struct.unpack('>I', msg[pos:pos + 4])[0]
             out = bytes([5])
             for k in self.keys:
-                if k.public_data == blob:
+                if k.public_data == blob and blob not in self.refuse:
                     alg = k.sig_algorithms[0]
                     if k.algorithm == b'ssh-rsa':
                         alg = b'rsa-sha2-512' if flags & 4 else b'rsa-sha2-256' if flags & 2 else b'ssh-rsa'
@@ -237,6 +238,63 @@ def matrix_worker(job):
     return acc
 
 
+# ------------------------------------------------------------------ several identities: agent keys that sign or refuse, local keys
+def identity_cases():
+    agents = [(('A1', 'sign'),), (('A1', 'refuse'),), (('A1', 'refuse'), ('A2', 'sign')), (('A1', 'sign'), ('A2', 'refuse')),
+              (('A1', 'refuse'), ('A2', 'refuse')), ()]
+    out = []
+    for ag in agents:
+        for local in ((), ('L1',), ('L1', 'L2')):
+            if not ag and not local:
+                continue
+            names = ['A1', 'A2', 'L1', 'L2']
+            for mask in range(16):
+                out.append((ag, local, tuple(n for i, n in enumerate(names) if mask >> i & 1)))
+    return out
+
+
+def identity_worker(job):
+    """a real client holding several identities -- keys in an agent that signs with some and refuses others
+    (SSH_AGENT_FAILURE), plus local keys -- against a server that authorizes a subset: the client is admitted
+    iff one identity it can actually sign with is authorized"""
+    acc = core.Acc()
+    for ag, local, authorized in job:
+        rep = {'kind': 'identity', 'case': [[list(a) for a in ag], list(local), list(authorized)]}
+        loop = P.fresh(0)
+        try:
+            keys = {n: P.key('id-' + n, 'ssh-ed25519') for n in ('A1', 'A2', 'L1', 'L2')}
+            copts = dict(password=None, preferred_auth='publickey', client_keys=[keys[n] for n in local] or ())
+            agent = None
+            if ag:
+                agent = AgentModel([keys[n] for n, _b in ag], refuse=[keys[n].public_data for n, b in ag if b == 'refuse'])
+                loop.listeners['/vagent'] = __import__('vloop').VServer(loop, lambda: agent, ['/vagent'], path='/vagent')
+                copts['agent_path'] = '/vagent'
+            text = ''.join(keys[n].export_public_key('openssh').decode() for n in authorized) or P.key('id-nobody', 'ssh-ed25519').export_public_key('openssh').decode()
+            sopts = dict(authorized_client_keys=asyncssh.import_authorized_keys(text))
+            pair = P.Pair(loop, sopts=sopts, copts=copts, env={'password': 'pw'})
+            loop.flush_all()
+            w = pair.copt.waiter
+            ok = w.done() and not w.cancelled() and w.exception() is None
+            exc = type(w.exception()).__name__ if w.done() and not w.cancelled() and w.exception() else None
+            usable = [n for n, b in ag if b == 'sign'] + list(local)
+            want = any(n in authorized for n in usable)
+            acc.add(core.digest(('identity', ag, local, authorized, ok)), transitions=len(ag) + len(local) + 1,
+                    sample={'agent': [list(a) for a in ag], 'local_keys': list(local), 'authorized': list(authorized), 'admitted': ok}
+                    if ag == (('A1', 'refuse'), ('A2', 'sign')) and authorized == ('A1', 'A2') and not local else None)
+            if want and not ok:
+                acc.violation('auth:valid-credential-rejected:identities', 'agent %r local keys %r, server authorizes %r: %s' % (ag, local, authorized, exc), rep)
+            if ok and not want:
+                acc.violation('auth:granted-without-credential:identities', 'agent %r local keys %r, server authorizes %r' % (ag, local, authorized), rep)
+            if not w.done():
+                acc.violation('auth:hang:identities', 'connect() pending: agent %r local %r authorized %r' % (ag, local, authorized), rep)
+            lexc = loop.unretrieved()
+            if lexc:
+                acc.violation('auth:loop-exception:identities', repr(lexc[0].get('exception') or lexc[0].get('message'))[:200], rep)
+        finally:
+            P.done(loop)
+    return acc
+
+
 def run(only=None):
     acc = core.Acc()
     algs = ['ssh-ed25519', 'ecdsa-sha2-nistp256', 'ssh-rsa']
@@ -254,4 +312,6 @@ def run(only=None):
     if not only:
         cases = matrix_cases()
         acc.merge(core.pmap(matrix_worker, [cases[i::16] for i in range(16)]))
+        ic = identity_cases()
+        acc.merge(core.pmap(identity_worker, [ic[i::16] for i in range(16)]))
     return acc
